@@ -287,6 +287,15 @@ pub struct StreamOpts {
     /// entirely; the rest stays DCT8. The large blocks carry synthetic sparse coefficients (no JPEG meaning) and use
     /// the library-default quantisation matrices.
     pub big_blocks: Option<u8>,
+    /// like `big_blocks`, but the transform type of each newly placed varblock is taken from this list in turn (a type
+    /// that does not fit at the position falls back to DCT8)
+    pub block_cycle: Vec<u8>,
+    /// leave adaptive LF smoothing on (the kSkipAdaptiveLFSmoothing flag is not set)
+    pub lf_smoothing: bool,
+    /// non-zero chroma-from-luma maps (x_from_y, b_from_y per 64x64 tile)
+    pub cfl: bool,
+    /// HF quantisation multiplier varies from varblock to varblock (1..=5) instead of 1 everywhere
+    pub hf_mul_varied: bool,
 }
 
 /// Size in 8x8 blocks (width, height) of a transform type (DctSelect value).
@@ -999,7 +1008,7 @@ impl JpegSpec {
             fh.height = self.h as u32;
         }
         fh.encoding = ENC_VARDCT;
-        fh.flags = FLAG_SKIP_ADAPTIVE_LF_SMOOTHING | if o.noise.is_some() { FLAG_NOISE } else { 0 } | if o.lf_frame { FLAG_USE_LF_FRAME } else { 0 } | if o.splines.is_some() { FLAG_SPLINES } else { 0 };
+        fh.flags = if o.lf_smoothing { 0 } else { FLAG_SKIP_ADAPTIVE_LF_SMOOTHING } | if o.noise.is_some() { FLAG_NOISE } else { 0 } | if o.lf_frame { FLAG_USE_LF_FRAME } else { 0 } | if o.splines.is_some() { FLAG_SPLINES } else { 0 };
         assert!(!o.lf_frame || (self.samp.is_empty() && up == 1 && canvas.is_none()), "LF frame: plain frames only");
         fh.do_ycbcr = ycbcr;
         fh.upsampling = up;
@@ -1065,9 +1074,13 @@ impl JpegSpec {
         let (cw, chh) = ((self.w + 63) / 64, (self.h + 63) / 64);
         // varblock layout: `vb_of[block]` = transform type at the top-left block of a varblock, None where covered
         let mut vb_of: Vec<Option<u8>> = vec![Some(0); nb];
-        if let Some(t) = o.big_blocks {
+        if o.big_blocks.is_some() || !o.block_cycle.is_empty() {
             assert!(self.samp.is_empty(), "large varblocks: no chroma subsampling");
-            let (tw, th) = dct_select_size(t);
+            let cycle: Vec<u8> = match o.big_blocks {
+                Some(t) => vec![t],
+                None => o.block_cycle.clone(),
+            };
+            let mut placed = 0usize;
             let mut occupied = vec![false; nb];
             for y in 0..bh {
                 for x in 0..bw {
@@ -1075,7 +1088,11 @@ impl JpegSpec {
                         vb_of[y * bw + x] = None;
                         continue;
                     }
-                    if x % tw == 0 && y % th == 0 && x + tw <= bw && y + th <= bh {
+                    let t = cycle[placed % cycle.len()];
+                    placed += 1;
+                    let (tw, th) = dct_select_size(t);
+                    let free = (0..th).all(|dy| (0..tw).all(|dx| x + dx < bw && y + dy < bh && !occupied[(y + dy) * bw + x + dx]));
+                    if x % tw == 0 && y % th == 0 && x + tw <= bw && y + th <= bh && free {
                         vb_of[y * bw + x] = Some(t);
                         for dy in 0..th {
                             for dx in 0..tw {
@@ -1091,6 +1108,15 @@ impl JpegSpec {
         let mut meta: Vec<Channel> = vec![Channel::new(cw, chh), Channel::new(cw, chh), Channel::new(nb, 2), Channel::new(bw, bh)];
         for (i, t) in vb_types.iter().enumerate() {
             meta[2].data[i] = *t as i32;
+            if o.hf_mul_varied {
+                meta[2].data[nb + i] = ((i * 7 + 3) % 5) as i32;
+            }
+        }
+        if o.cfl {
+            for k in 0..cw * chh {
+                meta[0].data[k] = (k as i32 * 7) % 23 - 11;
+                meta[1].data[k] = 9 - (k as i32 * 5) % 19;
+            }
         }
         if let Some(v) = o.hostile_dct_select {
             meta[2].data[0] = v;
